@@ -22,11 +22,11 @@ NA = {
 
 K_FIFO = "not decided as a whole: the per-transaction kernel (Updater::index_transaction_sats) is proved in the C01 unit, but this property is about the partition of ALL mined sats over the UTXO set at every height and about the lookup functions (Index::find, find_range, list, rare_sat_satpoint), which scan redb tables and are outside both verifiers' reach; the removal of spent outputs before their ranges are reused is glue inside Updater::index_utxo_entries (DESIGN §0.6, §6)"
 K_INS = "not decided: lives in InscriptionUpdater::index_inscriptions over redb tables, HashMaps and Vec sorting; the function is outside Verus's subset and was not brought under Kani in the budget (engine E2 exists since round 3 but only value-level files and small extracted kernels fit it; DESIGN §0.2, §6)"
-K_ARTIFACT = "not decided: the deciding function RuneUpdater::index_runes (edict allocation, pointer, burns) cannot be taken by either verifier - Kani 0.68 aborts with an internal compiler error on every read of the discriminant of ordinals::Artifact (niche in the 128-bit tag of an Option<u128>; measured with probe harnesses, DESIGN §0.6), and Verus rejects its HashMap / closure / iterator-adapter code; the kernel functions around it are under contract (C10 mint, C11 etched / create_rune_entry, C08 unallocated)"
+K_ARTIFACT = "not decided: the deciding function RuneUpdater::index_runes (edict allocation, pointer, burns) cannot be taken by either verifier - Kani 0.68 aborts with an internal compiler error on every read of the discriminant of ordinals::Artifact (niche in the 128-bit tag of an Option<u128>; measured with probe harnesses, DESIGN §0.6), and Verus cannot take it either (a closure capturing two mutable maps used at three call sites, about ten std iterator pipelines and seven operator traits of Lot would each need a rewrite rule or a stand-in - measured against the four functions that were brought in with such rules in round 4, DESIGN §0.2); the kernel functions around it are under contract (C10 mint, C11 etched / create_rune_entry, C08 unallocated)"
 K_ORD = "not decided: the functions live in the `ord` crate outside the value-level files and small kernels that engine E2 reaches (DESIGN §0.2, §6)"
 UNBUILT = {
  "C09": K_ARTIFACT + ". The arithmetic it uses (Lot, even split) is under contract in C08",
- "C16": "not decided as stated (whole-chain totality): panic-freedom obligations are discharged for the functions under contract in C25/C26 (varint, Runestone::integers), C27 (from_value, pointer), C31 (parsers), C35 (decoders of stored values) and C10/C08 (mint, update, unallocated never error), but envelope parsing, Properties::from_cbor, index_inscriptions and index_runes are not under contract, so the property as a whole is not claimed",
+ "C16": "not decided as stated (whole-chain totality): panic-freedom obligations are discharged for the functions under contract in C25/C26 (varint, Runestone::integers), C27 (from_value, pointer), C31 (parsers), C35 (decoders of stored values), C10/C11/C08 (mint, etched, create_rune_entry, update, unallocated) and - under stated preconditions that are the callers' obligations - C01/C03/C05 (index_transaction_sats never runs out of input ranges, calculate_sat never reaches unreachable!(), update_inscription_location never unwraps a missing entry), but envelope parsing, Properties::from_cbor, index_inscriptions, index_runes and the block-level glue that would discharge those preconditions are not under contract, so the property as a whole is not claimed",
  "C20": K_ORD + "; TransactionBuilder is ~1000 lines over BTreeMap/Vec state with f64 fee arithmetic",
 }
 
